@@ -174,7 +174,8 @@ fn shard(ctx: &ShardCtx) -> ShardResult {
         return res;
     }
     let mut i = ctx.first_index;
-    while ctx.time_left() {
+    let clock = ctx.clock();
+    while clock.left() && (ctx.first_index > 0 || clock.elapsed() < ctx.budget.mul_f64(0.65)) {
         let case = case_at(ctx.seed ^ 0x0c02, ctx.shard, i, 12, &mut res);
         journal_current(ctx, &case.src);
         ctx.begin_case(i, &format!("// origin: {:?}\n{}", case.origin, case.src), &res);
